@@ -276,7 +276,7 @@ def run(tier, seed):
     total = Result()
     ops = op_alphabet(1)
     if tier == 'quick':
-        L, nrandom, variants = 2, 3000, [('release', 1.0), ('dev', 0.3)]
+        L, nrandom, variants = 2, 8000, [('release', 1.0), ('dev', 0.3)]
     else:
         L, nrandom, variants = 3, 150000, [('release', 1.0), ('dev', 0.2), ('nightly', 0.2)]
     hists = []
